@@ -122,6 +122,16 @@ class Interp:
         log.setdefault(ent[1], ent)
         return TopV(why)
 
+    def note_cal_unknown(self, node, why):
+        """a date whose calendar validity was not decided on some path: the obligations about that
+        date (no ValueError from datetime(), calendar clause) are undecided; nothing else depends on
+        the flag, so the rule-base results stay complete"""
+        log = getattr(self, "cal_unknown", None)
+        if log is None:
+            log = self.cal_unknown = {}
+        c = self.construct("calendar", node)
+        log.setdefault(c, (self.where(node), c, why))
+
     def tick(self):
         self.paths += 1
         if self.paths > MAX_PATHS:
@@ -1294,6 +1304,10 @@ class Interp:
             if any(isinstance(x, NoneV) for x in a.items + b.items):
                 return [(st, self.raised("none-operand", "TypeError", node,
                                          "ordering comparison of tuples with a None element"))]
+            if all(isinstance(x, IntV) for x in a.items + b.items) and len(a.items) + len(b.items) <= 12:
+                # lexicographic order, element by element: each path carries the integer relations
+                # that decide it (year/month/day keys compared as tuples are the if-cascade)
+                return self._lex_cmp(st, opn, list(a.items), list(b.items))
             return self._unknown_bool(st, ("cmp", opn, a.sym, b.sym))
         if isinstance(a, RefV) and isinstance(b, RefV):
             oa = st.heap[a.oid]
@@ -1316,6 +1330,23 @@ class Interp:
         st.conds.append((sym, True))
         s2.conds.append((sym, False))
         return [(st, True), (s2, False)]
+
+    def _lex_cmp(self, st, opn, xs, ys):
+        if not xs or not ys:
+            la, lb = len(xs), len(ys)
+            return [(st, {"Lt": la < lb, "LtE": la <= lb, "Gt": la > lb, "GtE": la >= lb}[opn])]
+        x0, y0 = xs[0], ys[0]
+        out = []
+        for s, lt in self.int_cmp(st, "Lt", x0, None, y0, None):
+            if lt:
+                out.append((s, opn in ("Lt", "LtE")))
+                continue
+            for s2, le in self.int_cmp(s, "LtE", x0, None, y0, None):
+                if le:      # not <, and <=: equal heads
+                    out.extend(self._lex_cmp(s2, opn, xs[1:], ys[1:]))
+                else:
+                    out.append((s2, opn in ("Gt", "GtE")))
+        return out
 
     def int_cmp(self, st, opn, a, anode, b, bnode, record=True):
         # normalise to a < b or a <= b
@@ -1474,6 +1505,27 @@ class Interp:
             return self._unknown_bool(st, ("cmp", "Eq", getattr(a, "sym", None),
                                            getattr(b, "sym", None)))
         if isinstance(a, TupleV) and isinstance(b, TupleV):
+            if getattr(a, "is_list", False) != getattr(b, "is_list", False):
+                return [(st, False)]        # a list never equals a tuple
+            if len(a.items) != len(b.items):
+                return [(st, False)]
+            if len(a.items) <= 12:
+                # element by element, left to right
+                out = []
+                pending = [st]
+                for x, y in zip(a.items, b.items):
+                    nxt = []
+                    for s in pending:
+                        for s2, t in self.equals(s, x, None, y, None, node):
+                            if isinstance(t, Raised):
+                                out.append((s2, t))
+                            elif t:
+                                nxt.append(s2)
+                            else:
+                                out.append((s2, False))
+                    pending = nxt
+                out.extend((s, True) for s in pending)
+                return out
             return self._unknown_bool(st, ("cmp", "Eq", a.sym, b.sym))
         if a.kind != b.kind:
             if {a.kind, b.kind} <= {"int", "float", "bool"}:
